@@ -2,7 +2,7 @@
 # regenerate baselines + evidence for every claimed property, both tiers (run on the clean tree only)
 cd /verif
 mkdir -p replays/regress
-for t in thorough quick; do
+for t in ${TIERS:-thorough quick}; do
 for p in ${PROPS:-C01 C02 C03 C04 C05 C06 C07 C08 C09 C11 C12 C13 C14 C16 C17 C18 C19}; do
   /usr/bin/time -f "%e s" ./check $p $t --write-baseline > replays/regress/$p.$t.log 2>&1
   echo "$p $t rc=$? $(tail -1 replays/regress/$p.$t.log)" >> replays/regress/summary.txt
